@@ -445,18 +445,44 @@ def discharge(assumptions, goal, timeout_ms, name="ob"):
     status, backend = "unknown", "z3-api"
     secs = max(1, int(timeout_ms / 1000))
     try:
+        # both command-line back ends run concurrently on the exported text; the first definitive answer wins and the
+        # other process is killed (a slow back end no longer delays the other one's proof)
+        import time as _time
+        procs = []
         for cmd, be in (["z3-new", f"-T:{secs}", fn], "z3-cli"), (["/usr/bin/cvc5", f"--tlimit={secs * 1000}", fn], "cvc5"):
             try:
-                p = subprocess.run(cmd, capture_output=True, text=True, timeout=secs + 5)
-                out = (p.stdout or "").strip().splitlines()
-                ans = out[0].strip() if out else ""
-            except subprocess.TimeoutExpired:
-                ans = "timeout"
-            if ans == "unsat":
-                return "unsat", "", be
-            if ans == "sat":
-                return "sat", f"({be} reports sat; no model extracted)", be
-            detail += f"; {be}: {ans[:60]}"
+                procs.append((be, subprocess.Popen(cmd, stdout=subprocess.PIPE, stderr=subprocess.DEVNULL, text=True)))
+            except OSError as e:
+                detail += f"; {be}: {e}"
+        deadline = _time.time() + secs + 5
+        answers = {}
+        try:
+            while procs and _time.time() < deadline:
+                for be, p in list(procs):
+                    if p.poll() is None:
+                        continue
+                    procs.remove((be, p))
+                    out = [l.strip() for l in (p.stdout.read() or "").splitlines()]
+                    # the verdict is the first line that is one (solvers may print warnings before it)
+                    ans = next((l for l in out if l in ("unsat", "sat", "unknown", "timeout")), out[0] if out else "")
+                    answers[be] = ans
+                    if ans == "unsat":
+                        return "unsat", "", be
+                    if ans == "sat":
+                        return "sat", f"({be} reports sat; no model extracted)", be
+                if procs:
+                    _time.sleep(0.02)
+        finally:
+            for be, p in procs:
+                answers.setdefault(be, "timeout")
+                try:
+                    p.kill()
+                    p.wait(timeout=5)
+                except Exception:
+                    pass
+        for be in ("z3-cli", "cvc5"):
+            if be in answers:
+                detail += f"; {be}: {answers[be][:60]}"
     finally:
         if not dump:
             try:
@@ -660,13 +686,16 @@ class Enum:
         e.cb = lambda j: F["cntbelow"](*pz, zint(j))
         return e
 
-    def assume_total(self, ctx):
+    def assume_total(self, ctx, instances=()):
         """Modus ponens on the axiom "(forall i < n. g(i)) => cnt == n and idx(j) == j": to be called right after the
-        premise has been PROVED for an arbitrary i (fresh constant), i.e. for all i."""
+        premise has been PROVED for an arbitrary i (fresh constant), i.e. for all i.  `instances`: index terms at which the
+        universal conclusion is also stated explicitly (its trigger may be unusable when the family parameters contain ite)."""
         j = z3.Int("j!ax")
         nn = zint(self.n)
         ctx.assumptions.append(self.cnt == z3.If(nn >= 0, nn, 0))
         ctx.assumptions.append(safe_forall([j], z3.Implies(z3.And(0 <= j, j < nn), self.idx(j) == j), [self.idx(j)], None))
+        for t in instances:
+            ctx.assumptions.append(z3.Implies(z3.And(0 <= zint(t), zint(t) < nn), z3.And(self.idx(zint(t)) == zint(t), self.rk(zint(t)) == zint(t))))
 
     def axioms(self):
         """The defining axioms of the enumeration (cnt, idx, rk, cntbelow)."""
